@@ -2,6 +2,8 @@ import CV.Proofs.CoreMatch
 import CV.Proofs.InvCacheMain
 import CV.Proofs.InvForest
 import CV.Proofs.ClassTable
+import CV.Proofs.ClassTableC3
+import CV.Proofs.ClassTableAdd
 /-
 C01 - matching layer.  `collect` is the model of `Manager.getHandlers`; the dispatcher calls
 it with fuel `comps.length + 1` whenever it rebuilds a cache entry.  These theorems say that
@@ -581,5 +583,137 @@ example :
     let E : Enc := { name := fun s => ⟨s.length, []⟩, chan := fun s => s.length }
     collect (newComponent E demo "M".toList {}) 2 0 ⟨3, []⟩ .star = [0] ∧
     collect (newComponent E demo "M".toList {}) 2 0 ⟨1, []⟩ (.named 5) = [1, 2] := by decide
+
+/-! ### C3 exactly: the merge rule as a relation, determinism, refusal
+
+`C3Merge seqs l` / `C3Stuck seqs` (CV/Proofs/ClassTableC3.lean) state CPython's `pmerge` rule without the
+executable `merge`: repeatedly take the head of the first sequence whose head is in no tail (`FirstGood`), remove it
+from the front of every sequence; finished when all sequences are empty; stuck when sequences are left and no head is
+good (CPython: TypeError "Cannot create a consistent method resolution order (MRO)"). -/
+
+/-- the executable merge computes exactly the lists the C3 merge rule allows -/
+theorem c3_merge_exact (seqs : List (List Str)) (l : List Str) :
+    merge (totalLen seqs) seqs = some l ↔ C3Merge seqs l :=
+  merge_some_iff _ seqs (Nat.le_refl _) l
+
+/-- **determinism**: the merge rule allows at most one list -/
+theorem c3_merge_deterministic (seqs : List (List Str)) (l l' : List Str) (a : C3Merge seqs l) (b : C3Merge seqs l') :
+    l = l' := a.unique b
+
+example : C3Merge [[compName, bcName], [compName]] [compName, bcName] := (c3_merge_exact _ _).mp (by decide)
+
+/-- **refusal**: the executable merge answers `none` exactly when, after some legal steps, sequences are left and no
+    head is a good head -/
+theorem c3_refusal_iff (seqs : List (List Str)) : merge (totalLen seqs) seqs = none ↔ C3Stuck seqs :=
+  merge_none_iff _ seqs (Nat.le_refl _)
+
+/-- stuck = there is no linearisation at all (so `merge = none → ¬ ∃ l, C3Merge seqs l`, and conversely) -/
+theorem c3_stuck_iff_no_linearisation (seqs : List (List Str)) : C3Stuck seqs ↔ ¬ ∃ l, C3Merge seqs l := by
+  constructor
+  · exact C3Stuck.no_merge
+  · intro h
+    apply (c3_refusal_iff seqs).mp
+    cases hm : merge (totalLen seqs) seqs with
+    | none => rfl
+    | some l => exact absurd ⟨l, (c3_merge_exact seqs l).mp hm⟩ h
+
+/-- non-vacuity: `class X(BaseComponent, Component)` is stuck at the first step -/
+example : C3Stuck [[bcName], [compName, bcName], [bcName, compName]] := (c3_refusal_iff _).mp (by decide)
+
+/-- **the MRO is THE C3 linearisation**: for every executed class statement the MRO is the class followed by the one
+    and only list the merge rule allows for the MROs of the direct bases and the list of direct bases -/
+theorem mro_is_c3 (cs : Classes) (hl : (linearize cs).isSome = true) (d : ClassDecl) (hd : d ∈ cs) :
+    ∃ rest, mro cs d.name = d.name :: rest ∧ C3Merge (d.bases.map (mro cs) ++ [d.bases]) rest ∧
+      ∀ l, C3Merge (d.bases.map (mro cs) ++ [d.bases]) l → l = rest := by
+  obtain ⟨t, ht⟩ := Option.isSome_iff_exists.mp hl
+  obtain ⟨ms, rest, hms, hlk, hmerge⟩ := linearizeFrom_c3 cs builtinMros t ht d hd
+  have hmap : ms = d.bases.map (mro cs) := by
+    rw [mapM_lookup_eq_map d.bases ms hms]
+    apply List.map_congr_left
+    intro b _
+    simp [mro, ht]
+  subst hmap
+  exact ⟨rest, by simp [mro, ht, hlk], hmerge, fun l h => h.unique hmerge⟩
+
+example : (linearize demo).isSome = true := by decide
+
+/-- **a class statement is refused exactly when** its name is bound, it has no base, a base is unknown, or the C3
+    merge of the bases' MROs gets stuck; it is accepted with exactly the C3 list otherwise -/
+theorem class_statement_refused_iff (acc : MroTable) (d : ClassDecl) :
+    mroFor acc d = none ↔ (acc.lookup d.name).isSome = true ∨ d.bases = [] ∨ d.bases.mapM (acc.lookup ·) = none ∨
+      ∃ ms, d.bases.mapM (acc.lookup ·) = some ms ∧ C3Stuck (ms ++ [d.bases]) :=
+  mroFor_none_iff acc d
+
+theorem class_statement_accepted_iff (acc : MroTable) (d : ClassDecl) (l : List Str) :
+    mroFor acc d = some l ↔ acc.lookup d.name = none ∧ d.bases ≠ [] ∧
+      ∃ ms rest, d.bases.mapM (acc.lookup ·) = some ms ∧ l = d.name :: rest ∧ C3Merge (ms ++ [d.bases]) rest :=
+  mroFor_some_iff acc d l
+
+/-- the refusal direction as asked for: well-formed statement (name free, bases known) refused → no list satisfies
+    the merge rule -/
+theorem mro_refused_no_c3 (acc : MroTable) (d : ClassDecl) (ms : List (List Str)) (hn : acc.lookup d.name = none)
+    (hb : d.bases ≠ []) (hms : d.bases.mapM (acc.lookup ·) = some ms) (h : mroFor acc d = none) :
+    ¬ ∃ l, C3Merge (ms ++ [d.bases]) l := by
+  rcases (mroFor_none_iff acc d).mp h with h | h | h | ⟨ms', hm, hs⟩
+  · rw [hn] at h; cases h
+  · exact absurd h hb
+  · rw [hms] at h; cases h
+  · rw [hms] at hm; cases hm; exact hs.no_merge
+
+/-- non-vacuity: `class X(BaseComponent, Component)` meets the hypotheses -/
+example :
+    let d : ClassDecl := { name := "X".toList, bases := [bcName, compName], members := [] }
+    builtinMros.lookup d.name = none ∧ d.bases ≠ [] ∧
+      d.bases.mapM (builtinMros.lookup ·) = some [[bcName], [compName, bcName]] ∧ mroFor builtinMros d = none := by decide
+
+/-- **the sequence of class statements is refused exactly when** some statement is refused in the table built by the
+    statements before it (which were all accepted) -/
+theorem classes_refused_iff (cs : Classes) :
+    linearize cs = none ↔ ∃ pre d post t, cs = pre ++ d :: post ∧ linearize pre = some t ∧ mroFor t d = none :=
+  linearizeFrom_none_iff cs builtinMros
+
+/-! ### `newComponent` = what `BaseComponent.__init__` builds with `addHandler`
+
+`blankComponent`: the handler objects of the instance exist, its component record is as `Manager.__init__` leaves
+it (empty `_handlers` / `_globals`, `_cache_needs_refresh = False`); `installAll`: the core model's `St.addHandler`
+(the function both interpreters use for `Manager.addHandler`) for the handler ids `s.hs.length + i` in the order of
+`effectiveHandlers`; `markDirty`: the flag set by the closing `addHandler(_on_prepare_unregister_complete)`.
+`dedupTables` collapses repeated rows of the new component's tables (the buckets are Python sets; `tableOf` repeats a
+row when a record names an event twice or two of its names have the same code under `E`). -/
+
+/-- for every class table, class, encoding and state: installing the effective handlers one by one with the core
+    model's `addHandler` gives `newComponent` - same handler objects, same component record incl. `_globals` and the
+    cache-invalidation flag - with repeated rows collapsed -/
+theorem newComponent_eq_addHandlers (E : Enc) (cs : Classes) (c : Str) (s : St) :
+    markDirty (installAll (blankComponent E cs c s) s.hs.length (effectiveHandlers cs c).length) s.comps.length =
+      dedupTables (newComponent E cs c s) s.comps.length :=
+  init_eq_newComponent E cs c s
+
+/-- collapsing changes no membership: the same rows are in the tables -/
+theorem dedup_same_rows {α} [BEq α] [LawfulBEq α] (l : List α) (y : α) : y ∈ dedup l ↔ y ∈ l := mem_dedup l y
+
+/-- exact equality when no row is repeated.  `_partial`: without the hypothesis the two states differ in the number
+    of equal rows (`newComponent_repeated_row_witness`); the statement for all inputs is `newComponent_eq_addHandlers`. -/
+theorem newComponent_eq_addHandlers_partial (E : Enc) (cs : Classes) (c : Str) (s : St)
+    (h1 : (tableOf E s.hs.length 0 (effectiveHandlers cs c)).Nodup)
+    (h2 : (globalsOf s.hs.length 0 (effectiveHandlers cs c)).Nodup) :
+    markDirty (installAll (blankComponent E cs c s) s.hs.length (effectiveHandlers cs c).length) s.comps.length =
+      newComponent E cs c s := by
+  rw [init_eq_newComponent, dedupTables_of_nodup E cs c s h1 h2]
+
+/-- non-vacuity: `demo`'s class `M` has no repeated row -/
+example :
+    let E : Enc := { name := fun s => ⟨s.length, []⟩, chan := fun s => s.length }
+    (tableOf E 0 0 (effectiveHandlers demo "M".toList)).Nodup ∧ (globalsOf 0 0 (effectiveHandlers demo "M".toList)).Nodup := by
+  decide
+
+/-- `@handler("a", "a")`: one row in the set, two equal rows in `tableOf` -/
+theorem newComponent_repeated_row_witness :
+    let E : Enc := { name := fun s => ⟨s.length, []⟩, chan := fun s => s.length }
+    let cs : Classes := [{ name := "A".toList, bases := [compName],
+                           members := [⟨"f".toList, .handler { names := ["a".toList, "a".toList] }⟩] }]
+    ((newComponent E cs "A".toList {}).comp 0).htab = [(some ⟨1, []⟩, 0), (some ⟨1, []⟩, 0)] ∧
+    ((markDirty (installAll (blankComponent E cs "A".toList {}) 0 1) 0).comp 0).htab = [(some ⟨1, []⟩, 0)] := by
+  decide
 
 end CV.C01
